@@ -3,6 +3,7 @@
 from __future__ import annotations
 
 import itertools
+import os
 import random as pyrandom
 
 from gev import core, evo, workload
@@ -26,7 +27,7 @@ PLAN = {
     "thorough": {"shards": 16, "shard_timeout": 3600, "case_timeout": 300, "maxlen": 8, "alg": 400000, "max_case_timeouts": 10},
 }
 THRESHOLDS = {
-    "quick": {"tracker_histories": 4000, "registrations_checked": 20000, "algorithm_runs": 150, "alg:gp": 20, "alg:rs": 20, "alg:hc": 20, "alg:opo": 20, "histories_with_ties": 1000, "minimising": 1500},
+    "quick": {"tracker_histories": 4000, "registrations_checked": 20000, "algorithm_runs": 150, "alg:gp": 20, "alg:rs": 20, "alg:hc": 20, "alg:opo": 20, "histories_with_ties": 1000, "minimising": 1500, "shared_evaluator_cases": 100, "shared_evaluator:parallel": 30, "presented_with_fitness": 100, "shared_evaluator_runs": 30},
     "thorough": {"tracker_histories": 12000, "registrations_checked": 80000, "algorithm_runs": 3800},
 }
 
@@ -39,6 +40,10 @@ def gen_cases(tier, seed):
             for multi in (False, True):
                 yield {"kind": "tracker", "len": ln, "minimize": minimize, "multi": multi}
     rng = pyrandom.Random(f"c12-{seed}")
+    for i in range(max(40, plan["alg"] // 4)):
+        # individuals that reach the tracker already carrying a fitness (evaluated through the tracker's own evaluator by
+        # a step), with either evaluator; and whole runs whose step evaluates after variation
+        yield {"kind": "shared-evaluator", "evaluator": "parallel" if i % 3 == 0 else "sequential", "n": rng.randint(2, 9), "pre": rng.choice([0.3, 0.5, 0.8]), "minimize": rng.random() < 0.5, "multi": rng.random() < 0.25, "run": i % 2 == 1, "step": rng.choice(["mut-then-evaluate", "mut-then-elitism", "mut-then-tournament"]), "pop": rng.choice([3, 4, 6]), "budget": rng.randint(8, 30), "repr": rng.choice(["tree", "ge"]), "seed": rng.randrange(10**6)}
     for i in range(plan["alg"]):
         n = rng.randint(3, 30)
         style = rng.choice(["ties", "plateau-then-better", "random", "decreasing", "late-improvement"])
@@ -89,7 +94,123 @@ def check_history(events, bests, minimize, multi, rec, wit, value_of):
 def run_case(case, rec):
     if case["kind"] == "tracker":
         return run_tracker(case, rec)
+    if case["kind"] == "shared-evaluator":
+        return run_shared(case, rec)
     return run_alg(case, rec)
+
+
+def setup(rec):
+    import tempfile
+
+    from gev.props import c13 as P13
+
+    d = tempfile.mkdtemp(prefix="gev-c12-")
+    P13.LOG_PATH["dir"] = d
+    P13.LOG_PATH["path"] = os.path.join(d, "invocations.log")
+
+
+def teardown(rec):
+    import shutil
+
+    from gev.props import c13 as P13
+
+    shutil.rmtree(P13.LOG_PATH.get("dir", ""), ignore_errors=True)
+
+
+def run_shared(case, rec):
+    """The evaluator is shared between the tracker and the steps: an individual evaluated by a step reaches the tracker
+    with a fitness already; it has been evaluated all the same and must count for the reported best."""
+    from geneticengine.algorithms.gp.gp import GeneticProgramming
+    from geneticengine.algorithms.gp.operators.combinators import ParallelStep, SequenceStep
+    from geneticengine.algorithms.gp.operators.elitism import ElitismStep
+    from geneticengine.algorithms.gp.operators.evaluation import EvaluateStep
+    from geneticengine.algorithms.gp.operators.mutation import GenericMutationStep
+    from geneticengine.algorithms.gp.operators.selection import TournamentSelection
+    from geneticengine.evaluation.budget import AnyOf, EvaluationBudget
+    from geneticengine.evaluation.parallel import ParallelEvaluator
+    from geneticengine.evaluation.sequential import SequentialEvaluator
+    from geneticengine.evaluation.tracker import MultiObjectiveProgressTracker, SingleObjectiveProgressTracker
+    from geneticengine.problems import MultiObjectiveProblem, SingleObjectiveProblem
+
+    from gev.props import c13 as P13
+
+    if os.path.exists(P13.LOG_PATH["path"]):
+        os.unlink(P13.LOG_PATH["path"])
+    os.environ["GEV_C13_DELAY"] = "0"
+    g, _ = evo.tiny()
+    src = workload.native(case["seed"])
+    rng = pyrandom.Random(case["seed"])
+    rep = evo.make_rep(case["repr"], g, src)
+    minimize, multi = case["minimize"], case["multi"]
+    prob = MultiObjectiveProblem([minimize, minimize, minimize], P13.logged_fitness_multi) if multi else SingleObjectiveProblem(P13.logged_fitness, minimize=minimize)
+    ev = ParallelEvaluator() if case["evaluator"] == "parallel" else SequentialEvaluator()
+    R = evo.make_recorder_class()
+    r = R()
+    presented: list = []
+    base = MultiObjectiveProgressTracker if multi else SingleObjectiveProgressTracker
+
+    class PresentationLog(base):  # a tracker subclass (extension API) that notes what it is asked to evaluate
+        def evaluate(self, individuals):
+            individuals = list(individuals)
+            presented.extend(individuals)
+            return super().evaluate(individuals)
+
+    tr = PresentationLog(prob, ev, recorders=[r])
+
+    def value(ind):
+        p = ind.get_phenotype()
+        return sum(P13.pure_multi(p)) if multi else P13.pure_single(p)
+
+    wit = {k: case[k] for k in ("evaluator", "minimize", "multi", "repr", "run", "step")}
+    rec.count("shared_evaluator_cases")
+    rec.count(f"shared_evaluator:{case['evaluator']}")
+    rec.count("evaluations")
+    try:
+        if not case["run"]:
+            inds = evo.individuals(rep, src, case["n"])
+            best_so_far = None
+            for ind in inds:
+                if rng.random() < case["pre"]:
+                    ev.evaluate(prob, [ind])  # what EvaluateStep / elitism / selection do with the shared evaluator
+                    rec.count("presented_with_fitness")
+                tr.evaluate([ind])
+                v = good(value(ind), minimize)
+                best_so_far = v if best_so_far is None else max(best_so_far, v)
+                reported = list(tr.get_best_individuals()) if multi else [tr.get_best_individual()]
+                if not reported or any(b is None for b in reported):
+                    rec.violation(f"reported-best:none-after-evaluation:{case['evaluator']}", wit)
+                    return
+                if any(good(value(b), minimize) < best_so_far for b in reported):
+                    rec.violation(f"reported-best:worse-than-an-evaluated-individual:{'min' if minimize else 'max'}:{'multi' if multi else 'single'}:shared-evaluator", dict(wit, reported=[value(b) for b in reported], best_evaluated=(-best_so_far if minimize else best_so_far)))
+                    return
+            if len(r.events) != len(inds):
+                rec.violation(f"recorder:evaluated-individual-never-registered:{case['evaluator']}", dict(wit, presented=len(inds), registered=len(r.events)))
+            rec.distinct_add(["shared", wit, [value(i) for i in inds]])
+            return
+        step = {
+            "mut-then-evaluate": SequenceStep(TournamentSelection(2), GenericMutationStep(1.0), EvaluateStep()),
+            "mut-then-elitism": SequenceStep(GenericMutationStep(1.0), ElitismStep()),
+            "mut-then-tournament": ParallelStep([ElitismStep(), SequenceStep(GenericMutationStep(1.0), TournamentSelection(2, with_replacement=True))], weights=[1, 3]),
+        }[case["step"]]
+        budget = AnyOf(EvaluationBudget(case["budget"]), evo.check_count_budget(case["budget"] + 40))
+        gp = GeneticProgramming(prob, budget, rep, src, tracker=tr, population_size=case["pop"], step=step)
+        res = gp.search()
+        # every individual the tracker was asked to evaluate (a step may evaluate more through the shared evaluator and
+        # discard them before they reach a Population: those never enter the search's record and are not demanded here)
+        vals = [value(i) for i in presented]
+        if not vals or res is None:
+            return
+        best = max(good(v, minimize) for v in vals)
+        rv = good(value(res), minimize)
+        rec.count("shared_evaluator_runs")
+        if rv < best:
+            rec.violation(f"search:returned-worse-than-an-evaluated-individual:{'min' if minimize else 'max'}:shared-evaluator", dict(wit, returned=value(res), best_evaluated=(-best if minimize else best), invocations=len(vals)))
+        rec.distinct_add(["shared-run", wit, len(vals), rv])
+        rec.sample(dict(wit, invocations=len(vals), returned=value(res)), cap=3)
+    except core.CaseTimeout:
+        raise
+    except BaseException as e:  # noqa
+        rec.violation(f"search:raises:{type(e).__name__}@{core.exc_site(e)}", dict(wit, error=core.short(e)))
 
 
 def run_tracker(case, rec):
